@@ -1,6 +1,7 @@
 package main
 
 import (
+	"sort"
 	"fmt"
 	"go/ast"
 	"go/token"
@@ -799,6 +800,32 @@ func (fc *FnCtx) typeAssert(x *ssa.TypeAssert) {
 		g.declareFun("|implements|", "(Int Int) Bool")
 		id := g.sorts.typeID(at)
 		okT = fmt.Sprintf("(and (not (= (itag %s) 0)) (|implements| (itag %s) %d))", v.t, v.t, id)
+		// what is known statically: the message types of the universe and every concrete type already given a
+		// tag either implement the interface or do not
+		g.msgUniverse()
+		if it, ok := at.Underlying().(*types.Interface); ok {
+			var ids []int
+			for tid := range g.sorts.typeOf {
+				ids = append(ids, tid)
+			}
+			sort.Ints(ids)
+			for _, tid := range ids {
+				T := g.sorts.typeOf[tid]
+				if _, isI := T.Underlying().(*types.Interface); isI {
+					continue
+				}
+				key := fmt.Sprintf("impl|%d|%d", tid, id)
+				if g.declared[key] {
+					continue
+				}
+				g.declared[key] = true
+				if types.Implements(T, it) {
+					g.emit(fmt.Sprintf("(assert (|implements| %d %d))", tid, id))
+				} else {
+					g.emit(fmt.Sprintf("(assert (not (|implements| %d %d)))", tid, id))
+				}
+			}
+		}
 		valT = v.t
 	} else {
 		id := g.sorts.typeID(at)
